@@ -166,8 +166,9 @@ func (p *Program) genFunc(c *Ctx, fn *ssa.Function, ct *Contract) {
 		}
 	}
 	// vacuity probe: some normal return must be reachable under the preconditions
+	split := len(rets) > 6 || (ct.SplitRet && len(rets) > 1)
 	if len(ct.Ensures) > 0 || ct.NoPanic {
-		if len(rets) > 6 {
+		if split {
 			// large functions: probe the last return point only (along its own path), the merged probe is too big to be decided sat
 			last := rets[0]
 			for _, r := range rets {
@@ -184,7 +185,7 @@ func (p *Program) genFunc(c *Ctx, fn *ssa.Function, ct *Contract) {
 				Src: "a normal return is reachable under the preconditions (vacuity guard)", Pos: fmt.Sprintf("%s:%d", ct.File, ct.Line)})
 		}
 	}
-	if len(rets) > 6 {
+	if split {
 		// many return points (executors, Run methods): one obligation per return point and clause, over that path's
 		// own state; clauses that are syntactically true at a return point (e.g. "Code == OK ==> ..." at an error
 		// return) produce no obligation
@@ -239,7 +240,7 @@ func (p *Program) genFunc(c *Ctx, fn *ssa.Function, ct *Contract) {
 	if len(ct.Covers) > 0 && len(rets) > 0 {
 		cg, cst, cres := rg, post, res
 		top := -1
-		if len(rets) > 6 {
+		if split {
 			last := rets[0]
 			for _, r := range rets {
 				if r.block > last.block {
